@@ -35,7 +35,8 @@ Definition agrees (v : verdict) (o : N) : bool :=
 Definition rule_expect (c : case) : option N :=
   match nums c with
   | [M; m; p; HM; Hm; Hp] =>
-      if existsb (N.eqb slash) (iname c) || existsb (N.eqb slash) (ipre c) then None
+      (* a '/' inside the name or the prefix: more than three segments, never matched *)
+      if existsb (N.eqb slash) (iname c) || existsb (N.eqb slash) (ipre c) then Some 0
       else if negb (is_nil (ipre c)) then Some 0      (* something in front of the first '/': never matched *)
       else if forallb (fun z => z <? two64) [M; m; p; HM; Hm; Hp]
            then Some (if bytes_eqb (iname c) (hname c) && (HM =? M) && (m <=? Hm) then 1 else 0)
@@ -53,6 +54,7 @@ Definition vres_eqb (a b : vres) : bool :=
 Definition expect_parse (M m p : N) : vres :=
   if (M <? two64) && (m <? two64) && (p <? two64) then VNum M m p else VErr.
 Definition spelling_ok (c : case) : bool :=
+  if existsb (N.eqb slash) (iname c) || existsb (N.eqb slash) (ipre c) then true else
   match nums c, split slash (incoming c) with
   | [M; m; p; HM; Hm; Hp], [pre; n; v] =>
       bytes_eqb pre (ipre c) && bytes_eqb n (iname c) && vres_eqb (parse_version v) (expect_parse M m p)
